@@ -19,28 +19,34 @@ pub fn solver_error(e: &SolverError) -> String {
 }
 
 /// runs the one-shot entry point in a helper thread so that a hang is observed instead of suffered
-pub fn solve_text(src: &str) -> String {
+pub fn solve_text(src: &str) -> String { solve_full(src, None).0 }
+
+/// the same run, also dumped IN FULL when the compiled model is handed in (for the by-name view of the solution): every
+/// arm of `RoocSolverError` and the whole returned `LpSolution`, in the encoding of the Lean model `Pipeline.solveUsingAuto`
+pub fn solve_full(src: &str, lm: Option<rooc::LinearModel>) -> (String, Option<String>) {
     let (tx, rx) = mpsc::channel();
     let s = src.to_string();
     std::thread::spawn(move || {
         let r = std::panic::catch_unwind(|| {
-            let solver = match RoocSolver::try_new(s) { Ok(s) => s, Err(e) => return format!("(compile-error parse {})", sx::q(&format!("{:?}", e).chars().take(40).collect::<String>())) };
+            let solver = match RoocSolver::try_new(s) { Ok(s) => s, Err(e) => return (format!("(compile-error parse {})", sx::q(&format!("{:?}", e).chars().take(40).collect::<String>())), None) };
             match solver.solve_using(auto_solver) {
                 Ok(sol) => {
                     let asg = sol.assignment().iter().map(|a| {
                         let v: f64 = match a.value { MILPValue::Bool(b) => if b { 1.0 } else { 0.0 }, MILPValue::Int(i) => i as f64, MILPValue::Real(r) => r };
                         format!("({} {})", sx::q(&a.name), sx::num(v))
                     }).collect::<Vec<_>>().join(" ");
-                    format!("(solution {} (assign{}{}))", sx::num(sol.value()), if asg.is_empty() { "" } else { " " }, asg)
+                    let summary = format!("(solution {} (assign{}{}))", sx::num(sol.value()), if asg.is_empty() { "" } else { " " }, asg);
+                    let full = lm.as_ref().map(|lm| format!("(solved {})", crate::gen_lp::result(&crate::child::pack_milp(lm, Ok(sol)))));
+                    (summary, full)
                 }
-                Err(RoocSolverError::Transform(e)) => format!("(compile-error transform {})", sx::q(&format!("{:?}", e).chars().take(40).collect::<String>())),
-                Err(RoocSolverError::Linearization(e)) => format!("(compile-error linearize {})", crate::props::c01::lin_error(&e)),
-                Err(RoocSolverError::Solver(e)) => solver_error(&e),
+                Err(RoocSolverError::Transform(e)) => (format!("(compile-error transform {})", sx::q(&format!("{:?}", e).chars().take(40).collect::<String>())), Some("(transform)".into())),
+                Err(RoocSolverError::Linearization(e)) => (format!("(compile-error linearize {})", crate::props::c01::lin_error(&e)), Some(format!("(linearization {})", crate::props::c01::lin_error(&e)))),
+                Err(RoocSolverError::Solver(e)) => (solver_error(&e), Some(format!("(solver (err {}))", crate::child::err_variant(&e)))),
             }
         });
-        let _ = tx.send(r.unwrap_or_else(|_| "(panic)".to_string()));
+        let _ = tx.send(r.unwrap_or_else(|_| ("(panic)".to_string(), Some("(panic)".to_string()))));
     });
-    rx.recv_timeout(Duration::from_secs(20)).unwrap_or_else(|_| "(hang)".to_string())
+    rx.recv_timeout(Duration::from_secs(20)).unwrap_or_else(|_| ("(hang)".to_string(), None))
 }
 
 fn discrete_decls(r: &mut Rng, n: usize, with_real: bool) -> Vec<VarDecl> {
@@ -67,6 +73,64 @@ pub fn program(r: &mut Rng, with_real: bool) -> (Model, String) {
     (m, text)
 }
 
+/// MIXED programs: 1-2 discrete declarations, 1-2 bounded Real / NonNegativeReal declarations; every side is
+/// `D ± Σ cᵢ·realᵢ` with `D` an arbitrary (piecewise-linear, logic) expression over the DISCRETE variables, so that each
+/// residual of the reference's discrete enumeration is a small LP over the reals.
+pub fn mixed_program(r: &mut Rng) -> (Model, String) {
+    use rooc::model_transformer::{Constraint, Exp};
+    use rooc::{BinOp, OptimizationType};
+    let nd = 1 + r.below(2);
+    let nr = 1 + r.below(2);
+    let mut ds = discrete_decls(r, nd, false);
+    let disc = ds.clone();
+    let rnames = ["u", "v"];
+    let mut reals = vec![];
+    for k in 0..nr {
+        let ty = if r.chance(1, 2) { let lo = r.range(-3, 1) as f64; VariableType::Real(lo, lo + r.range(1, 5) as f64) }
+                 else { let lo = r.range(0, 2) as f64; VariableType::NonNegativeReal(lo, lo + r.range(1, 5) as f64) };
+        reals.push(VarDecl { name: rnames[k].to_string(), ty });
+    }
+    ds.extend(reals.clone());
+    let fractional = r.chance(1, 3);
+    let cfg = ModelCfg { max_vars: 2, depth: 2, logic: true, piecewise: true, unbounded: false, fractional, strict_cmp: false, hostile: false };
+    let lin = |r: &mut Rng| -> Exp {
+        let mut e: Option<Exp> = None;
+        for d in &reals {
+            if r.chance(1, 4) { continue; }
+            let t = if r.chance(1, 3) { Exp::Variable(d.name.clone()) } else { Exp::BinOp(BinOp::Mul, Box::new(Exp::Number(gen_model::coef(r, fractional))), Box::new(Exp::Variable(d.name.clone()))) };
+            e = Some(match e { None => t, Some(p) => Exp::BinOp(if r.chance(2, 3) { BinOp::Add } else { BinOp::Sub }, Box::new(p), Box::new(t)) });
+        }
+        e.unwrap_or(Exp::Variable(reals[0].name.clone()))
+    };
+    let side = |r: &mut Rng| -> Exp {
+        let l = lin(r);
+        match r.below(4) {
+            0 => l,
+            1 => Exp::BinOp(BinOp::Add, Box::new(gen_model::num_exp(r, &disc, &cfg, 2)), Box::new(l)),
+            2 => Exp::BinOp(BinOp::Sub, Box::new(l), Box::new(gen_model::num_exp(r, &disc, &cfg, 1))),
+            _ => Exp::BinOp(BinOp::Add, Box::new(l), Box::new(Exp::Number(gen_model::constant(r, fractional)))),
+        }
+    };
+    let mut cons = vec![];
+    for k in 0..1 + r.below(3) {
+        let rhs = if r.chance(2, 3) { Exp::Number(gen_model::constant(r, fractional)) } else { gen_model::num_exp(r, &disc, &cfg, 1) };
+        cons.push(Constraint::new(side(r), gen_model::comparison(r), rhs, if r.chance(1, 2) { String::new() } else { format!("m{}", k) }));
+    }
+    if r.chance(1, 2) {
+        // a purely discrete constraint next to the mixed ones
+        let has_bool = disc.iter().any(|d| matches!(d.ty, VariableType::Boolean));
+        if has_bool && r.chance(1, 2) { cons.push(Constraint::new_logic_assertion(gen_model::bool_exp(r, &disc, &cfg, 2), "a".into())); }
+        else { cons.push(Constraint::new(gen_model::num_exp(r, &disc, &cfg, 2), gen_model::comparison(r), Exp::Number(gen_model::constant(r, false)), "d".into())); }
+    }
+    let opt = match r.below(5) { 0 | 1 => OptimizationType::Min, 2 | 3 => OptimizationType::Max, _ => OptimizationType::Satisfy };
+    let obj = if matches!(opt, OptimizationType::Satisfy) { Exp::Number(0.0) } else { side(r) };
+    let m = gen_model::build(opt, obj, cons, &ds);
+    let sp = Spelling { aliases: r.chance(1, 2), implicit_mul: r.chance(1, 2), redundant_parens: r.chance(1, 2), named_consts: r.chance(1, 3) };
+    let mut pr = r.fork();
+    let text = Printer { r: &mut pr, sp, consts: vec![] }.program(&m);
+    (m, text)
+}
+
 pub fn one(m: &Model, text: &str, tag: &str) -> Case {
     let mut c = Case::default();
     let out = solve_text(text);
@@ -88,12 +152,56 @@ pub fn one(m: &Model, text: &str, tag: &str) -> Case {
     c
 }
 
+/// the glue of `RoocSolver::solve_using` (lib.rs: `map_err(Linearization)`, `func(&linearized)`, `map_err(Solver)`) diffed in
+/// full against `Pipeline.solveUsingAuto`: the model runs the composed compiler port and rooc's wrapper port on microlp's RAW
+/// answer for the compiled model (mirror in the child worker); compared: which arm, and the whole returned `LpSolution`.
+pub fn glue(text: &str, tag: &str) -> Option<Case> {
+    let parse = || rooc::RoocParser::new(text.to_string()).parse_and_transform(vec![], &indexmap::IndexMap::new()).ok();
+    let parsed = parse()?;
+    let ms = sx::model(&parsed);
+    let lm = rooc::Linearizer::linearize(parsed).ok();
+    let mlp = match &lm {
+        Some(lm) => crate::gen_lp::mlp(&crate::child::solve(crate::child::SolverKind::RawMilp, lm, &crate::child::Opts::default(), Duration::from_secs(3)))?,
+        None => "(merr pre)".to_string(),
+    };
+    let (summary, full) = solve_full(text, lm);
+    let full = full?;
+    if full == "(transform)" { return None; }
+    let mut c = Case::default();
+    c.req = format!("solve-using {} {} {}", ms, sx::num(1e-9), mlp);
+    c.imp = full.clone();
+    c.show = text.replace('\n', " ; ");
+    c.tags = vec![tag.into(), "glue-diff".into(), format!("glue-{}", full.trim_start_matches('(').split(|ch| ch == ' ' || ch == ')').next().unwrap_or(""))];
+    c.nontrivial = summary.starts_with("(solution");
+    Some(c)
+}
+
 pub fn generate(seed: u64, n: usize, _thorough: bool, _corpus: Option<&str>) -> Vec<Case> {
     let mut r = Rng::new(seed).fork();
     let mut out = vec![];
     for i in 0..n {
         let (m, text) = program(&mut r, false);
         out.push(one(&m, &text, if i % 2 == 0 { "discrete" } else { "discrete" }));
+        // every second program also goes through the full diff of the `solve_using` glue
+        if i % 2 == 0 { if let Some(c) = glue(&text, "discrete") { out.push(c); } }
+        // every third round a MIXED program (discrete + bounded Real), judged by the mixed reference
+        if i % 3 == 0 { let (m, text) = mixed_program(&mut r); out.push(one(&m, &text, "mixed")); }
     }
+    // fixed programs for the arms the random stream rarely reaches: `Linearization(..)` errors, the variable-free branch of
+    // `auto_solver` (solved / infeasible), an unbounded model
+    for text in [
+        "min x * y\ns.t.\n    c: x + y >= 1\ndefine\n    x as Boolean\n    y as Boolean",
+        "max x / y\ns.t.\n    c: x + y <= 1\ndefine\n    x as Boolean\n    y as Boolean",
+        "min x / 0\ns.t.\n    c: x >= 0\ndefine\n    x as Boolean",
+        "min abs{x}\ns.t.\n    c: abs{x} >= 1\ndefine\n    x as Real",
+        "min x\ns.t.\n    c: max{x, y} >= 1\ndefine\n    x as Real\n    y as Real",
+        "min 3\ns.t.\n    c: 1 <= 2",
+        "max 3 + 4\ns.t.\n    c: 2 <= 1",
+        "min x\ns.t.\n    c: x <= 5\ndefine\n    x as Real",
+        "max x + y\ns.t.\n    c: x + y <= 3\ndefine\n    x as IntegerRange(0, 2)\n    y as Boolean",
+    ] {
+        if let Some(mut c) = glue(text, "fixed") { c.tags.push("glue-fixed".into()); out.push(c); }
+    }
+    crate::child::shutdown();
     out
 }
